@@ -443,6 +443,10 @@ def run_c11(tier, seed, res):
     for n in (500, 4000):
         body = b''.join(b' l%d\n' % i for i in range(n // 2)) + b'-x\n+y\n' + b''.join(b' l%d\n' % i for i in range(n // 2, n))
         inputs.append(({'f': (b''.join(b'l%d\n' % i for i in range(n)), 0o644), 'keep': (b'k\n', 0o644)}, b'--- a/f\n+++ b/f\n@@ -1,%d +1,%d @@\n' % (n + 1, n + 1) + body, 'failing-hunk-with-thousands-of-context-lines'))
+    # a failing hunk that replaces every line of a large file (no line in common): the comparison hint compares all pairs of lines
+    n = 20000
+    inputs.append(({'f': (b''.join(b'l%d\n' % i for i in range(n)), 0o644), 'keep': (b'k\n', 0o644)},
+                   b'--- a/f\n+++ b/f\n@@ -1,%d +1,%d @@\n' % (n, n) + b''.join(b'-x%d\n' % i for i in range(n)) + b''.join(b'+y%d\n' % i for i in range(n)), 'failing-hunk-replacing-a-large-file'))
     # failing hunks in systematic shapes of mismatch: the failure diagnostics (closest match, hints) of the default verbosity
     m_sh = tq.initial()
     for fp in tq.failing_shapes(m_sh, 'e/i'):
